@@ -369,6 +369,10 @@ func (w *world) checkTranslation(t fataler) {
 		if g := s.st.EncodeSeqNum(0); g != 0 {
 			w.fail(t, "%s.EncodeSeqNum(0)=%d", s.name, g)
 		}
+		// the client's own message count (the value of '*' in its sequence sets)
+		if g := s.st.NumMessages(); int(g) != len(s.view) {
+			w.fail(t, "%s.NumMessages()=%d but its client has been told about %d messages %v (mailbox %v, pending %v)", s.name, g, len(s.view), s.view, w.truth, s.pending)
+		}
 		for c := 1; c <= len(s.view); c++ {
 			want := uint32(indexOf(w.truth, s.view[c-1]) + 1)
 			got := s.st.DecodeSeqNum(uint32(c))
